@@ -4,29 +4,30 @@ import LiquerModel.Handlers.Eval
 /-
 `conc.run <keep:0|1> <defaults> <schedule: i,i,i… | -> <hex query text>…`
 Answer: per thread `outcome # calls # trace`, then the final data-bearing cache content; parts separated by ` | `.
-Trace entries: `G:<hexkey>`, `M:<hexkey>:<r|e|o>` (ready / error / other status), `S:<hexkey>`, `R:<hexkey>`.
+Trace entries (pre-emption points): `G:<hexkey>`, `S:<hexkey>`, `R:<hexkey>`.
 -/
 namespace Liquer.Handlers
 open Liquer Liquer.Proto
 
-def renderCOp : COp → String
-  | .get k => "G:" ++ hexS k
-  | .storeMeta k st => "M:" ++ hexS k ++ ":" ++ (if st == statusReady then "r" else if st == s "error" then "e" else "o")
-  | .store st => "S:" ++ hexS st.query
-  | .remove k => "R:" ++ hexS k
-  | .metas l => "M:" ++ String.intercalate "+" (sortStrings (l.map (fun e => hexS e.1 ++ ":" ++ (if e.2 == statusReady then "r" else if e.2 == s "error" then "e" else "o"))))
+/-- the trace shows the pre-emption points only -/
+def renderPoint : COp → Option String
+  | .get k => some ("G:" ++ hexS k)
+  | .store st => some ("S:" ++ hexS st.query)
+  | .remove k => some ("R:" ++ hexS k)
+  | .storeMeta _ _ => none
 
 def concH (cmd : String) (args : List String) : Option String :=
   match cmd, args with
   | "conc.run", keep :: dflt :: sched :: qs => some <|
     let run (sentinel : Char) : String :=
       let env : Env := { reg := Gen.registry, defaults := kvOf dflt, dec := decWith sentinel }
-      let threads : List (Option Thread) := qs.map (fun h =>
+      -- a text that does not parse: `evaluate` raises before any cache operation
+      let threads : List Thread := qs.map (fun h =>
         let t := hexToChars h.toList
-        (parse env.dec t).map (fun q => ({ q := q, raw := t } : Thread)))
-      if threads.any Option.isNone then "PARSEERR" else
-      let threads := threads.filterMap id
-      let c0 : Config := { shared := { metaKeepsData := keep == "1" }, threads := threads }
+        match parse env.dec t with
+        | some q => ({ q := q, raw := t } : Thread)
+        | none => ({ q := .mk [] false, raw := t, result := some .parseError } : Thread))
+      let c0 : Config := startAll env { shared := { metaKeepsData := keep == "1" }, threads := threads }
       let schedule : List Nat := if sched == "-" then [] else (sched.splitOn ",").filterMap String.toNat?
       let c1 := runSchedule env c0 schedule
       let c2 := finishAll env 100000 c1
@@ -34,7 +35,7 @@ def concH (cmd : String) (args : List String) : Option String :=
         let (ow, _) := t.run env
         (match t.result with | some o => renderOutcome o | none => "UNFINISHED") ++ " # " ++
           String.intercalate "," (t.calls.map String.ofList) ++ " # " ++
-          String.intercalate "," ((canonTrace ow.trace).map renderCOp))
+          String.intercalate "," ((ow.trace.take t.done).filterMap renderPoint))
       String.intercalate " | " (perThread ++ [renderCache c2.shared])
     let a := run (Char.ofNat 0xFFFD)
     let b := run (Char.ofNat 0xFFFC)
